@@ -1142,7 +1142,7 @@ package gkvlite
 //@   ensures [C15] balanced: refcb(t.store) ==> forall j {net[j]} :: !fresh(j) ==> net[j] == old(net[j])
 
 //@ func (*Collection).SetItem
-//@   props C01 C13 C07 C10 C15 C19 C05 C04
+//@   props C01 C13 C07 C10 C15 C19 C05 C04 C11
 //@   from: C01 statement ("a lookup yields the last value and priority stored under the key", "Items with an empty or oversized (>65535 byte) key, a nil value or a negative priority are rejected with an error and change nothing"); C13 ("As long as no key is overwritten with a lower priority than it had, no child outranks its parent"); C07 ("failed calls change nothing")
 //@   requires [C05,C18] nolocks: locks == emptyLocks()
 //@   requires t != nil && t.store != nil && t.rootLock != nil && t.compare != nil && item != nil
@@ -1158,7 +1158,7 @@ package gkvlite
 //@   after (*Collection).mkNodeLoc.0 asserts [C13] new-node-is-well-formed: nodeInv(n)
 //@   ensures [C07] E1: io.fails >= old(io.fails) && (io.fails > old(io.fails) ==> err != nil)
 //@   ensures [C01] rejected-items-change-nothing: t.store.readOnly || item.Key == nil || len(item.Key) > 65535 || len(item.Key) == 0 || item.Val == nil || item.Priority < 0 ==> err != nil && t.root == old(t.root) && tvs == old(tvs) && ias == old(ias) && rootNodeLoc.refs == old(rootNodeLoc.refs) && rootNodeLoc.root == old(rootNodeLoc.root) && net == old(net)
-//@   ensures [C01] stored: err == nil ==> bst(tvs[t.root.root]) && (forall k {mem(k, tvs[t.root.root])} {mem(k, old(tvs)[old(t.root.root)])} :: mem(k, tvs[t.root.root]) == (mem(k, old(tvs)[old(t.root.root)]) || k == ord(item.Key))) && itemAt(ord(item.Key), tvs[t.root.root]) == ia(item) && (forall k {itemAt(k, tvs[t.root.root])} :: k != ord(item.Key) && mem(k, old(tvs)[old(t.root.root)]) ==> itemAt(k, tvs[t.root.root]) == itemAt(k, old(tvs)[old(t.root.root)]))
+//@   ensures [C01,C11] stored: err == nil ==> bst(tvs[t.root.root]) && (forall k {mem(k, tvs[t.root.root])} {mem(k, old(tvs)[old(t.root.root)])} :: mem(k, tvs[t.root.root]) == (mem(k, old(tvs)[old(t.root.root)]) || k == ord(item.Key))) && itemAt(ord(item.Key), tvs[t.root.root]) == ia(item) && (forall k {itemAt(k, tvs[t.root.root])} :: k != ord(item.Key) && mem(k, old(tvs)[old(t.root.root)]) ==> itemAt(k, tvs[t.root.root]) == itemAt(k, old(tvs)[old(t.root.root)]))
 //@   ensures [C13] heap-order-kept: err == nil && hp(old(tvs)[old(t.root.root)]) && (mem(ord(item.Key), old(tvs)[old(t.root.root)]) ==> ipri(itemAt(ord(item.Key), old(tvs)[old(t.root.root)])) <= item.Priority) ==> hp(tvs[t.root.root])
 //@   ensures [C04,C13] new-version-is-well-formed: err == nil ==> t.root != nil && t.root.refs >= 1 && t.root.root != nil && t.root.next == nil && t.root.chainedCollection == nil && t.root.chainedRootNodeLoc == nil
 //@   ensures [C07] failed-call-changes-nothing: err != nil ==> t.root == old(t.root) && t.root.refs == old(t.root.refs) && t.root.root == old(t.root.root) && tvs[t.root.root] == old(tvs)[old(t.root.root)]
@@ -1202,7 +1202,7 @@ package gkvlite
 // ---------------------------------------------------------------------------
 // treap.go / collection.go: walk, MinItem, MaxItem, GetTotals
 
-//@ global walkDir(funcref("(*Collection).MinItem$1")) == 0 && walkDir(funcref("(*Collection).MaxItem$1")) == 1
+//@ global walkDir(funcref("(*Collection).MinItem$1")) == 0 && walkDir(funcref("(*Collection).MaxItem$1")) == 1 && walkDir(funcref("(*Collection).EvictSomeItems$1")) == 2
 
 //@ func (*Collection).MinItem$1
 //@   props C01
@@ -1217,7 +1217,9 @@ package gkvlite
 //@ functype (*Store).walk.cfn(n) (child, ok)
 //@   from: the three closures handed to walk (MinItem$1, MaxItem$1, EvictSomeItems$1); walkDir classifies them (see the global above, justified by the contracts of MinItem$1 / MaxItem$1)
 //@   requires n != nil && locks == emptyLocks()
-//@   modifies itemLoc.item, cell.Int, ghost net
+//@   modifies itemLoc.item, cell.Int, ghost net, ghost orphans
+//@   ensures [C15] evicting-chooser-returns-only-non-empty-children: walkDir(codeOf(self)) == 2 && ok ==> !emptyNL(child)
+//@   ensures [C15] choosers-keep-the-callers-references: orphans == old(orphans)
 //@   ensures [C01] left-chooser: walkDir(codeOf(self)) == 0 ==> ok && child == ref(n.left)
 //@   ensures [C01] right-chooser: walkDir(codeOf(self)) == 1 ==> ok && child == ref(n.right)
 //@   ensures chooses-a-child: ok ==> child == ref(n.left) || child == ref(n.right)
@@ -1240,6 +1242,7 @@ package gkvlite
 //@   ensures [C01] item-of-the-tree: err == nil && res != nil ==> mem(ikey(ia(res)), old(tvs)[old(t.root.root)]) && ia(res) == itemAt(ikey(ia(res)), old(tvs)[old(t.root.root)]) && ipri(ia(res)) == res.Priority
 //@   ensures [C01] leftmost: err == nil && walkDir(codeOf(cfn)) == 0 ==> (res == nil) == isLeaf(old(tvs)[old(t.root.root)]) && (res != nil ==> forall k {mem(k, old(tvs)[old(t.root.root)])} :: mem(k, old(tvs)[old(t.root.root)]) ==> k >= ikey(ia(res)))
 //@   ensures [C01] rightmost: err == nil && walkDir(codeOf(cfn)) == 1 ==> (res == nil) == isLeaf(old(tvs)[old(t.root.root)]) && (res != nil ==> forall k {mem(k, old(tvs)[old(t.root.root)])} :: mem(k, old(tvs)[old(t.root.root)]) ==> k <= ikey(ia(res)))
+//@   ensures [C15] evicting-walk-returns-no-item: err == nil && walkDir(codeOf(cfn)) == 2 ==> res == nil
 //@   ensures [C19] key-only-reads-no-value: !withValue ==> io.valbytes == old(io.valbytes)
 //@   ensures [C04,C09] walk-changes-no-version: t.root == old(t.root) && rootNodeLoc.refs == old(rootNodeLoc.refs) && rootNodeLoc.root == old(rootNodeLoc.root) && rootNodeLoc.next == old(rootNodeLoc.next) && rootNodeLoc.chainedCollection == old(rootNodeLoc.chainedCollection) && rootNodeLoc.chainedRootNodeLoc == old(rootNodeLoc.chainedRootNodeLoc) && tvs == old(tvs) && ias == old(ias) && (forall m {node.next[m]} :: !fresh(m) ==> node.next[m] == old(node.next[m])) && (forall x {nodeLoc.loc[x]} {nodeLoc.next[x]} :: !fresh(x) ==> nodeLoc.loc[x] == old(nodeLoc.loc[x]) && nodeLoc.next[x] == old(nodeLoc.next[x])) && freeNodes == old(freeNodes) && freeNodeLocs == old(freeNodeLocs) && freeRootNodeLocs == old(freeRootNodeLocs)
 //@   ensures [C15] caller-gets-a-reference: refcb(t.store) && res != nil ==> net[res] >= 1
@@ -1253,14 +1256,14 @@ package gkvlite
 //@   loop 0 decreases cnt(tv(nNode))
 
 //@ func (*Collection).MinItem
-//@   props C01 C19 C07 C15 C05 C04
+//@   props C01 C19 C07 C15 C05 C04 C11
 //@   requires [C05,C18] nolocks: locks == emptyLocks()
 //@   requires t != nil && t.store != nil && t.rootLock != nil
 //@   requires [C07] open-handle: t.root != nil
 //@   modifies rootNodeLoc.refs, rootNodeLoc.root, rootNodeLoc.next, rootNodeLoc.chainedCollection, rootNodeLoc.chainedRootNodeLoc, node.numNodes, node.numBytes, node.next, itemLoc.loc, itemLoc.item, nodeLoc.loc, nodeLoc.node, nodeLoc.next, mem.ptr, G.freeNodes, G.freeNodeLocs, G.freeRootNodeLocs, AllocStats.CurFreeNodes, AllocStats.FreeNodes, AllocStats.CurFreeNodeLocs, AllocStats.FreeNodeLocs, AllocStats.CurFreeRootNodeLocs, AllocStats.FreeRootNodeLocs, ghost net, ghost tvs, t.store.nodeAllocs, new ploc.Offset, new ploc.Length, new node.numNodes, new node.numBytes, new node.next, new itemLoc.loc, new itemLoc.item, new nodeLoc.loc, new nodeLoc.node, new nodeLoc.next, new Item.Key, new Item.Val, new Item.Priority, new Item.Transient, new mem.byte, ghost io.fails, ghost io.reads, ghost io.valbytes, ghost src, cell.Int, ghost orphans
 //@   ensures [C15] caller-owes-the-release: orphans == old(orphans) + (result0 != nil ? 1 : 0)
 //@   ensures [C07] E1: io.fails >= old(io.fails) && (io.fails > old(io.fails) ==> result1 != nil)
-//@   ensures [C01] minimum: result1 == nil ==> (result0 == nil) == isLeaf(old(tvs)[old(t.root.root)]) && (result0 != nil ==> mem(ikey(ia(result0)), old(tvs)[old(t.root.root)]) && ia(result0) == itemAt(ikey(ia(result0)), old(tvs)[old(t.root.root)]) && (forall k {mem(k, old(tvs)[old(t.root.root)])} :: mem(k, old(tvs)[old(t.root.root)]) ==> k >= ikey(ia(result0))))
+//@   ensures [C01,C11] minimum: result1 == nil ==> (result0 == nil) == isLeaf(old(tvs)[old(t.root.root)]) && (result0 != nil ==> mem(ikey(ia(result0)), old(tvs)[old(t.root.root)]) && ia(result0) == itemAt(ikey(ia(result0)), old(tvs)[old(t.root.root)]) && (forall k {mem(k, old(tvs)[old(t.root.root)])} :: mem(k, old(tvs)[old(t.root.root)]) ==> k >= ikey(ia(result0))))
 //@   ensures [C07] error-means-no-item: result1 != nil ==> result0 == nil
 //@   ensures [C19] key-only-reads-no-value: !withValue ==> io.valbytes == old(io.valbytes)
 //@   ensures [C04,C09] changes-no-version: t.root == old(t.root) && rootNodeLoc.refs == old(rootNodeLoc.refs) && rootNodeLoc.root == old(rootNodeLoc.root) && rootNodeLoc.next == old(rootNodeLoc.next) && rootNodeLoc.chainedCollection == old(rootNodeLoc.chainedCollection) && rootNodeLoc.chainedRootNodeLoc == old(rootNodeLoc.chainedRootNodeLoc) && tvs == old(tvs) && ias == old(ias) && (forall m {node.next[m]} :: !fresh(m) ==> node.next[m] == old(node.next[m])) && (forall x {nodeLoc.loc[x]} {nodeLoc.next[x]} :: !fresh(x) ==> nodeLoc.loc[x] == old(nodeLoc.loc[x]) && nodeLoc.next[x] == old(nodeLoc.next[x])) && freeNodes == old(freeNodes) && freeNodeLocs == old(freeNodeLocs) && freeRootNodeLocs == old(freeRootNodeLocs)
@@ -1405,7 +1408,7 @@ package gkvlite
 //@   ensures stopped: !result ==> vis.stop
 
 //@ func (*Collection).VisitItemsAscendEx
-//@   props C06 C19 C07 C15 C05 C04 C09 C18
+//@   props C06 C19 C07 C15 C05 C04 C09 C18 C11
 //@   from: C06 statement, over the ghost visit log (see visitNodes)
 //@   requires [C05,C18] nolocks: locks == emptyLocks()
 //@   requires t != nil && t.store != nil && t.rootLock != nil && t.compare != nil && visitor != nil
@@ -1416,9 +1419,9 @@ package gkvlite
 //@   modifies rootNodeLoc.refs, rootNodeLoc.root, rootNodeLoc.next, rootNodeLoc.chainedCollection, rootNodeLoc.chainedRootNodeLoc, node.numNodes, node.numBytes, node.next, itemLoc.loc, itemLoc.item, nodeLoc.loc, nodeLoc.node, nodeLoc.next, mem.ptr, G.freeNodes, G.freeNodeLocs, G.freeRootNodeLocs, AllocStats.CurFreeNodes, AllocStats.FreeNodes, AllocStats.CurFreeNodeLocs, AllocStats.FreeNodeLocs, AllocStats.CurFreeRootNodeLocs, AllocStats.FreeRootNodeLocs, ghost net, ghost tvs, t.store.nodeAllocs, new ploc.Offset, new ploc.Length, new node.numNodes, new node.numBytes, new node.next, new itemLoc.loc, new itemLoc.item, new nodeLoc.loc, new nodeLoc.node, new nodeLoc.next, new Item.Key, new Item.Val, new Item.Priority, new Item.Transient, new mem.byte, ghost io.fails, ghost io.reads, ghost io.valbytes, ghost src, cell.Int, ghost orphans, ghost vis.n, ghost vis.key, ghost vis.item, ghost vis.depth, ghost vis.hasval, ghost vis.stop
 //@   ensures [C07] E1: io.fails >= old(io.fails) && (io.fails > old(io.fails) ==> result != nil)
 //@   ensures [C06] log-only-grows: vis.n >= old(vis.n) && (forall idx {vis.key[idx]} {vis.item[idx]} {vis.hasval[idx]} {old(vis.key)[idx]} {old(vis.item)[idx]} {old(vis.hasval)[idx]} :: idx < old(vis.n) ==> vis.key[idx] == old(vis.key)[idx] && vis.item[idx] == old(vis.item)[idx] && vis.hasval[idx] == old(vis.hasval)[idx])
-//@   ensures [C06] delivered-items-are-the-collections: forall idx {vis.key[idx]} {vis.item[idx]} {vis.depth[idx]} {vis.hasval[idx]} :: old(vis.n) <= idx && idx < vis.n ==> mem(vis.key[idx], old(tvs)[old(t.root.root)]) && vis.item[idx] == itemAt(vis.key[idx], old(tvs)[old(t.root.root)]) && vis.key[idx] >= ord(target) && vis.depth[idx] == depthIn(vis.key[idx], old(tvs)[old(t.root.root)]) && (withValue ==> vis.hasval[idx])
-//@   ensures [C06] strictly-ordered: forall idx, jdx {vis.key[idx], vis.key[jdx]} :: old(vis.n) <= idx && idx < jdx && jdx < vis.n ==> vis.key[idx] < vis.key[jdx]
-//@   ensures [C06] complete-unless-stopped: result == nil && !vis.stop ==> forall k {mem(k, old(tvs)[old(t.root.root)])} :: mem(k, old(tvs)[old(t.root.root)]) && k >= ord(target) ==> exists idx {vis.key[idx]} :: old(vis.n) <= idx && idx < vis.n && vis.key[idx] == k
+//@   ensures [C06,C11] delivered-items-are-the-collections: forall idx {vis.key[idx]} {vis.item[idx]} {vis.depth[idx]} {vis.hasval[idx]} :: old(vis.n) <= idx && idx < vis.n ==> mem(vis.key[idx], old(tvs)[old(t.root.root)]) && vis.item[idx] == itemAt(vis.key[idx], old(tvs)[old(t.root.root)]) && vis.key[idx] >= ord(target) && vis.depth[idx] == depthIn(vis.key[idx], old(tvs)[old(t.root.root)]) && (withValue ==> vis.hasval[idx])
+//@   ensures [C06,C11] strictly-ordered: forall idx, jdx {vis.key[idx], vis.key[jdx]} :: old(vis.n) <= idx && idx < jdx && jdx < vis.n ==> vis.key[idx] < vis.key[jdx]
+//@   ensures [C06,C11] complete-unless-stopped: result == nil && !vis.stop ==> forall k {mem(k, old(tvs)[old(t.root.root)])} :: mem(k, old(tvs)[old(t.root.root)]) && k >= ord(target) ==> exists idx {vis.key[idx]} :: old(vis.n) <= idx && idx < vis.n && vis.key[idx] == k
 //@   ensures [C19] key-only-reads-no-value: !withValue ==> io.valbytes == old(io.valbytes)
 //@   ensures [C04,C09,C18] visit-changes-no-version: t.root == old(t.root) && rootNodeLoc.refs == old(rootNodeLoc.refs) && rootNodeLoc.root == old(rootNodeLoc.root) && rootNodeLoc.next == old(rootNodeLoc.next) && rootNodeLoc.chainedCollection == old(rootNodeLoc.chainedCollection) && rootNodeLoc.chainedRootNodeLoc == old(rootNodeLoc.chainedRootNodeLoc) && tvs == old(tvs) && ias == old(ias) && (forall m {node.next[m]} :: !fresh(m) ==> node.next[m] == old(node.next[m])) && (forall x {nodeLoc.loc[x]} {nodeLoc.next[x]} :: !fresh(x) ==> nodeLoc.loc[x] == old(nodeLoc.loc[x]) && nodeLoc.next[x] == old(nodeLoc.next[x])) && freeNodes == old(freeNodes) && freeNodeLocs == old(freeNodeLocs) && freeRootNodeLocs == old(freeRootNodeLocs)
 //@   ensures [C15] in-visit-eviction-releases-what-it-drops: orphans == old(orphans)
@@ -1524,3 +1527,30 @@ package gkvlite
 //@   ensures [C07] E1: io.fails >= old(io.fails) && (io.fails > old(io.fails) ==> err != nil)
 //@   ensures [C16] block-shape: err == nil ==> num <= 1024 && leng >= 1
 //@   ensures [C04,C09,C18] changes-no-version: t.root == old(t.root) && rootNodeLoc.refs == old(rootNodeLoc.refs) && rootNodeLoc.root == old(rootNodeLoc.root) && rootNodeLoc.next == old(rootNodeLoc.next) && rootNodeLoc.chainedCollection == old(rootNodeLoc.chainedCollection) && rootNodeLoc.chainedRootNodeLoc == old(rootNodeLoc.chainedRootNodeLoc) && tvs == old(tvs) && ias == old(ias) && (forall m {node.next[m]} :: !fresh(m) ==> node.next[m] == old(node.next[m])) && (forall x {nodeLoc.loc[x]} {nodeLoc.next[x]} :: !fresh(x) ==> nodeLoc.loc[x] == old(nodeLoc.loc[x]) && nodeLoc.next[x] == old(nodeLoc.next[x])) && freeNodes == old(freeNodes) && freeNodeLocs == old(freeNodeLocs) && freeRootNodeLocs == old(freeRootNodeLocs)
+
+// ---------------------------------------------------------------------------
+// collection.go / store.go: eviction and the copying visitor of CopyTo (C11, C15). CopyTo itself is decided
+// by the bounded harness (its visitor is not neutral: it is the copy), see DESIGN section 9.
+
+//@ func (*Collection).EvictSomeItems$1
+//@   props C15 C11 C01
+//@   from: handed to walk as its chooser (walkDir 2), so it must satisfy the walk.cfn contract: it evicts only persisted items, releases what it evicts, and never returns an empty child
+//@   requires n != nil && locks == emptyLocks() && t != nil && numEvicted != nil && deref(t) != nil && deref(t).store != nil
+//@   relies [C15] slot-holds-ref: n.item.item != nil && refcb(deref(t).store) ==> net[n.item.item] >= 1
+//@   modifies n.item.item, cell.Int, ghost net, ghost orphans
+//@   after (*Store).ItemDecRef.0 sets orphans := orphans - 1
+//@   ensures [C15] evicting-chooser-returns-only-non-empty-children: result1 ==> (result0 == ref(n.left) || result0 == ref(n.right)) && !emptyNL(result0)
+//@   ensures [C15] evicts-only-persisted-items: n.item.item == old(n.item.item) || (n.item.item == nil && !emptyLoc(n.item.loc))
+//@   ensures [C15] releases-what-it-evicts: orphans == old(orphans)
+
+//@ func (*Collection).EvictSomeItems
+//@   props C15 C11 C01 C04 C19 C07
+//@   from: C01/C11 (eviction never changes what a collection contains: no version and no slot denotation changes), C04 (read-only stores evict nothing), C15 (an evicted item's reference is released)
+//@   requires [C05,C18] nolocks: locks == emptyLocks()
+//@   requires t != nil && t.store != nil && t.rootLock != nil
+//@   requires [C07] open-handle: t.root != nil
+//@   modifies rootNodeLoc.refs, rootNodeLoc.root, rootNodeLoc.next, rootNodeLoc.chainedCollection, rootNodeLoc.chainedRootNodeLoc, node.numNodes, node.numBytes, node.next, itemLoc.loc, itemLoc.item, nodeLoc.loc, nodeLoc.node, nodeLoc.next, mem.ptr, G.freeNodes, G.freeNodeLocs, G.freeRootNodeLocs, AllocStats.CurFreeNodes, AllocStats.FreeNodes, AllocStats.CurFreeNodeLocs, AllocStats.FreeNodeLocs, AllocStats.CurFreeRootNodeLocs, AllocStats.FreeRootNodeLocs, ghost net, ghost tvs, t.store.nodeAllocs, new ploc.Offset, new ploc.Length, new node.numNodes, new node.numBytes, new node.next, new itemLoc.loc, new itemLoc.item, new nodeLoc.loc, new nodeLoc.node, new nodeLoc.next, new Item.Key, new Item.Val, new Item.Priority, new Item.Transient, new mem.byte, ghost io.fails, ghost io.reads, ghost io.valbytes, ghost src, cell.Int, ghost orphans
+//@   ensures [C04] read-only-stores-evict-nothing: old(t.store.readOnly) ==> numEvicted == 0 && itemLoc.item == old(itemLoc.item) && net == old(net)
+//@   ensures [C01,C11] eviction-changes-no-contents: t.root == old(t.root) && rootNodeLoc.root == old(rootNodeLoc.root) && rootNodeLoc.refs == old(rootNodeLoc.refs) && tvs == old(tvs) && ias == old(ias)
+//@   ensures [C15] releases-what-it-evicts: orphans == old(orphans)
+//@   ensures [C19] no-value-bytes: io.valbytes == old(io.valbytes)
